@@ -60,10 +60,12 @@ func (s *socket) RecvMsg() (*protocol.Message, error) {
 	// For now this uses a simple unified queue for the entire
 	// socket.  Later we can look at moving this to priority queues
 	// based on socket pipes.
+	// The deadline covers the whole call: it is armed once, not again
+	// each time a queue resize makes us go round the loop.
 	timeQ := nilQ
 	for {
 		s.Lock()
-		if s.recvExpire > 0 {
+		if timeQ == nilQ && s.recvExpire > 0 {
 			timeQ = time.After(s.recvExpire)
 		}
 		closeQ := s.closeQ
